@@ -245,6 +245,10 @@ func (fs *FS) OpenFile(name string, flag int, perm hackpadfs.FileMode) (afFile h
 
 // Remove implements hackpadfs.RemoveFS
 func (fs *FS) Remove(name string) error {
+	if name == "." {
+		// the root directory always exists
+		return fs.wrapperErr("remove", name, hackpadfs.ErrInvalid)
+	}
 	file, err := fs.getFile(name)
 	if err != nil {
 		return fs.wrapperErr("remove", name, err)
